@@ -41,6 +41,11 @@ type Settings struct {
 	// the frame this Settings was decoded from. It lets the receiver apply the
 	// window delta to open streams only when the value actually changed.
 	hasWindowSize bool
+	// present has bit k set when parameter k was in the frame this Settings was
+	// decoded from. A frame only carries what changes: a parameter it does not
+	// mention keeps the value the peer gave before (RFC 7540 6.5.3), which is
+	// not the same as the default the decoder starts from.
+	present uint8
 }
 
 func (st *Settings) Type() FrameType {
@@ -59,6 +64,7 @@ func (st *Settings) Reset() {
 	st.rawSettings = st.rawSettings[:0]
 	st.ack = false
 	st.hasWindowSize = false
+	st.present = 0
 }
 
 // CopyTo copies st fields to st2.
@@ -72,6 +78,40 @@ func (st *Settings) CopyTo(st2 *Settings) {
 	st2.frameSize = st.frameSize
 	st2.headerSize = st.headerSize
 	st2.hasWindowSize = st.hasWindowSize
+	st2.present = st.present
+}
+
+// has reports whether the frame st was decoded from carried parameter key.
+func (st *Settings) has(key uint16) bool {
+	return key < 8 && st.present&(1<<key) != 0
+}
+
+// mergeInto applies a received SETTINGS frame to dst, the peer's settings so
+// far: the parameters the frame carries replace dst's, the others stay.
+func (st *Settings) mergeInto(dst *Settings) {
+	if st.has(HeaderTableSize) {
+		dst.tableSize = st.tableSize
+	}
+
+	if st.has(EnablePush) {
+		dst.enablePush = st.enablePush
+	}
+
+	if st.has(MaxConcurrentStreams) {
+		dst.maxStreams = st.maxStreams
+	}
+
+	if st.has(MaxWindowSize) {
+		dst.windowSize = st.windowSize
+	}
+
+	if st.has(MaxFrameSize) {
+		dst.frameSize = st.frameSize
+	}
+
+	if st.has(MaxHeaderListSize) {
+		dst.headerSize = st.headerSize
+	}
 }
 
 // SetHeaderTableSize sets the maximum size of the header
@@ -180,6 +220,10 @@ func (st *Settings) Read(d []byte) error {
 		b = d[last:i]
 		key = uint16(b[0])<<8 | uint16(b[1])
 		value = uint32(b[2])<<24 | uint32(b[3])<<16 | uint32(b[4])<<8 | uint32(b[5])
+
+		if key < 8 {
+			st.present |= 1 << key
+		}
 
 		switch key {
 		case HeaderTableSize:
